@@ -168,7 +168,16 @@ TEMPLATES = [
 ]
 SITES = ['{body}', 'IF n% THEN\n{body}\nEND IF',
          'FOR k9 = 1 TO 1\n{body}\nNEXT',
-         'SELECT CASE n%\nCASE 1\n{body}\nEND SELECT']
+         'SELECT CASE n%\nCASE 1\n{body}\nEND SELECT',
+         'DO\n{body}\nLOOP UNTIL n%', 'WHILE n% = 0\n{body}\nWEND',
+         'IF n% THEN {body} ELSE {body}']
+
+
+CONTEXT_BODIES = ['EXIT FOR', 'EXIT DO', 'EXIT SUB', 'EXIT FUNCTION', 'NEXT',
+                  'WEND', 'LOOP', 'END IF', 'ELSE', 'ELSEIF n% THEN',
+                  'CASE 1', 'CASE ELSE', 'END SELECT', 'RETURN', 'RESUME',
+                  'RESUME NEXT', 'END SUB', 'DATA 1', 'STATIC q7',
+                  'DIM SHARED q8', 'TYPE q9\nz AS LONG\nEND TYPE']
 
 
 def catalogue():
@@ -215,6 +224,11 @@ def items(cfg):
     if cfg['tier'] == 'quick':
         rng.shuffle(out)
         out = out[:cfg['quick_sample']]
+    # context-sensitive statements: at every site, in both tiers
+    for body in CONTEXT_BODIES:
+        for site in range(len(SITES)):
+            for in_sub in (False, True):
+                out.append((body, site, in_sub))
     return out
 
 
